@@ -103,6 +103,8 @@ def ref_run(script, eng):
             res.append("ok" if ok else "err")
         elif c in ("X", "N"):
             batch = []
+        elif c == "F":
+            pass
         elif c == "G":
             res.append(h(store.get(unh(f[1]))))
         elif c == "E":
@@ -288,10 +290,10 @@ def run(ctx):
                 f.write(line + "\n")
         runs.append(("replay", "-replay %s" % p))
     elif quick:
-        runs.append(("main", "-seed %d -n 1500 -sweep 4 -rockpct 35 -engines mem,pebble,rocksdb -corpus %s" % (ctx.seed, corpus)))
-        runs.append(("memvariants", "-seed %d -n 400 -sweep 1 -engines membtree,memskip -corpus %s" % (ctx.seed + 7919, corpus)))
+        runs.append(("main", "-seed %d -n 1500 -sweep 4 -nlarge 12 -nmulti 300 -rockpct 35 -engines mem,pebble,rocksdb -corpus %s" % (ctx.seed, corpus)))
+        runs.append(("memvariants", "-seed %d -n 400 -sweep 1 -nlarge 6 -nmulti 50 -engines membtree,memskip -corpus %s" % (ctx.seed + 7919, corpus)))
     else:
-        runs.append(("main", "-seed %d -n 40000 -sweep 40 -rockpct 100 -engines mem,pebble,rocksdb,membtree,memskip -corpus %s"
+        runs.append(("main", "-seed %d -n 30000 -sweep 40 -nlarge 400 -nmulti 8000 -rockpct 50 -engines mem,pebble,rocksdb,membtree,memskip -corpus %s"
                      % (ctx.seed, corpus)))
 
     all_mism, all_fail, total, hist_all, samples, distinct = [], [], 0, {}, [], set()
@@ -329,7 +331,7 @@ def run(ctx):
             samples.append(dict(id=cid, engine=cases[cid][0], script=cases[cid][1][:600], impl=(impl.get(cid) or "")[:600]))
 
     def search():
-        d2, err = run_harness(ctx, "search", "-seed %d -n 20000 -sweep 12 -rockpct 100 -engines mem,pebble,rocksdb,membtree,memskip"
+        d2, err = run_harness(ctx, "search", "-seed %d -n 15000 -sweep 12 -nlarge 100 -nmulti 3000 -rockpct 50 -engines mem,pebble,rocksdb,membtree,memskip"
                               % (ctx.seed + 1000003), model=False)
         if d2 is None:
             return []
@@ -353,7 +355,8 @@ def run(ctx):
              "0x00/0xff runs, shared prefixes, key/key+0x00/neighbour bounds; Commit via eng.Write or batch.Commit, Clear, new batch; reads "
              "before and after each commit: GetBytes, Exist, MultiGetBytes, NewDBRangeLimitIteratorWithOpts, NewDBRangeIteratorWithOpts with "
              "nil/set bounds, 4 range types, both directions, offsets {-1,0,1,2,5}, counts {-2,-1,0,1,2,3,100}, NoTimestamp, WithSnap, raw "
-             "cursor scripts) plus, per swept key set, the full cross-product bounds x bounds x 4 types x 2 directions x offsets {-1,0,1,n} x "
+             "cursor scripts, optional flush+compaction to table files); scripts over 40-200 keys (multi-level index nodes) with long cursor walks; "
+             "scripts over stores holding 2-4 different 3-byte prefixes with prefix-local range reads (the per-table use of the engines); plus, per swept key set, the full cross-product bounds x bounds x 4 types x 2 directions x offsets {-1,0,1,n} x "
              "counts {-1,0,1,n}; each script runs on a fresh engine instance of every engine (rocksdb only scripts whose keys and bounds are "
              ">= 3 bytes and share one 3-byte prefix). Non-trivial = a commit succeeded and a read returned data; distinct by hash of (engine, script).",
         histogram=hist_all,
@@ -363,6 +366,8 @@ def run(ctx):
         "rocksdb is exercised only with keys and bounds >= 3 bytes that share one 3-byte prefix (Debian's librocksdb asserts on the 3-byte "
         "prefix extractor; the engine iterates with prefix_same_as_start, which is the documented per-table restriction)",
         "Merge is issued only on counter keys (absent, empty or 8-byte values), as the table counters do; Commit is followed by Clear, as in every caller",
+        "flush/compaction is not combined with the empty key: the pebble version pinned by /repo (2020-06) cannot write a table file that starts with "
+        "the empty user key and retries the flush forever (library defect on a key the data layer never writes; reported, not part of the verdict)",
         "DeleteRange is issued with start <= end; IteratorOpts.IgnoreDel (raft log storage only) is not used",
         "btree and skiplist indexes of the mem engine are not selectable by configuration; they are exercised through the hook engine.VerifSetMemType",
     ])
